@@ -4,6 +4,7 @@ package verifharness
 
 import (
 	"context"
+	"fmt"
 	"net/http"
 	"net/http/httptest"
 	"os"
@@ -22,6 +23,7 @@ import (
 	"github.com/markusressel/fan2go/internal/persistence"
 	"github.com/markusressel/fan2go/internal/sensors"
 	"github.com/markusressel/fan2go/internal/statistics"
+	"github.com/markusressel/fan2go/internal/util"
 	"github.com/prometheus/client_golang/prometheus"
 )
 
@@ -268,6 +270,25 @@ func TestRaceCold(t *testing.T) {
 			req := httptest.NewRequest(http.MethodGet, "/curve/top"+sfx+"/", nil)
 			rest.ServeHTTP(httptest.NewRecorder(), req)
 		})
+		if rd%5 == 0 {
+			// command sensors and a command fan: every poll / read-back / RPM read runs an external command, from the
+			// goroutine of its monitor or control loop - concurrently, through the shared helper util.SafeCmdExecution
+			script := filepath.Join(dir, "cold"+sfx+".sh")
+			writeScript(script, "echo 42000\n")
+			for k := 0; k < 2; k++ {
+				cs, err := sensors.NewSensor(configuration.SensorConfig{ID: fmt.Sprintf("cs%d%s", k, sfx), Cmd: &configuration.CmdSensorConfig{Exec: script}})
+				must(err)
+				cs.SetMovingAvg(40000)
+				sensors.RegisterSensor(cs)
+				act(func() { _ = internal.VerifUpdateSensor(cs) })
+			}
+			cf, err := fans.NewFan(configuration.FanConfig{ID: "cf" + sfx, Curve: "top" + sfx, Cmd: &configuration.CmdFanConfig{
+				SetPwm: &configuration.ExecConfig{Exec: script, Args: []string{"%pwm%"}}, GetPwm: &configuration.ExecConfig{Exec: script},
+				GetRpm: &configuration.ExecConfig{Exec: script}}})
+			must(err)
+			act(func() { _ = cf.SetPwm(100) }) // control loop
+			act(func() { _, _ = util.SafeCmdExecution(script, nil, 2*time.Second) })
+		}
 		close(gate)
 		cw.Wait()
 		done++
